@@ -77,6 +77,14 @@ func OpenAt(st *Store, n *simnode.Node, gap uint32, pubpass string, wrap func(mw
 	if wrap != nil {
 		i.DB = wrap(raw)
 	}
+	defer func() {
+		// a planned crash (db seam panic) while the manager opens: the process is gone, so is
+		// its hold on the store
+		if r := recover(); r != nil {
+			raw.Close()
+			panic(r)
+		}
+	}()
 	w, err := masswallet.NewWalletManager(i.Srv, i.DB, i.Cfg, config.ChainParams, pubpass)
 	if err != nil {
 		raw.Close()
